@@ -1,21 +1,28 @@
 """C05 Dependencies gate readiness; failed parents cancel children — E1 family: the real code over minisql vs the Lean model BatchDB, oracle `oracles.c05`."""
-from ..batchdb.prop import E1Prop
+from ..batchdb import actors
+from ..batchdb.prop import ActorCasesMixin, E1Prop
 
 
-class C05(E1Prop):
+class C05(ActorCasesMixin, E1Prop):
+    actor_share = 0.3
+    actor_flavour = 'c05'
     id = 'C05'
     title = 'Dependencies gate readiness; failed parents cancel children'
     design_ref = 'DESIGN.md §4 C05 (Engine E1)'
     oracle_name = 'c05'
     adversarial_share = 0.0
     nontrivial_tags = ['job-with-parents', 'parent-not-succeeded']
-    level_text = 'Oracle after every op, for jobs of committed updates whose parents exist and precede them: not Pending => every parent terminal; Pending => n_pending_parents = number of non-terminal parents and some parent is live; a parent in Failed/Error/Cancelled => the child carries the cancelled mark; a marked non-always-run job never moves into Creating/Running; an always_run Ready job scheduled on an active instance starts (rc 0).'
+    level_text = 'Oracle after every op, for jobs of committed updates whose parents exist and precede them: not Pending => every parent terminal; Pending => n_pending_parents = number of non-terminal parents and some parent is live; a parent in Failed/Error/Cancelled => the child carries the cancelled mark; a marked non-always-run job never moves into Creating/Running; an always_run Ready job scheduled on an active instance starts (rc 0). A third of the cases run the REAL driver loops (pool scheduler, the canceller’s three loops, workers reporting Failed / Error / Success) on committed submissions with failing parents and always_run children: after every loop pass no always_run job is Cancelled, no cancelled non-always_run child has run, readiness respects the parents; at quiescence every committed job is terminal.'
     level_note = ('Partial: the server is harness/minisql (semantics list in trusted_base), every transaction is one atomic step, histories are generated '
                   '(not exhaustive); the Lean model is tied to the code only as far as the compared answers and dumps show. '
                   'Known findings of the unchanged tree are listed in known_findings.json and printed as KNOWN-FINDING.')
 
     def nontrivial(self, r):
         return any(t in r.tags for t in self.nontrivial_tags)
+
+
+    def actor_checks(self):
+        return ([lambda w, before, after: actors.dependencies(after)], [lambda w, v: actors.dependencies(v), lambda w, v: actors.liveness(v, {})])
 
 
 PROP = C05()
